@@ -444,7 +444,8 @@ struct timespec* sentTime) {
       recvSymbol = recvSymbol == 0x00 ? ESC : SYN;
     }
     m_escape = 0;
-  } else if (!sending && recvSymbol == ESC) {
+  } else if (!sending && recvSymbol == ESC && m_state < bs_sendCmd) {
+    // (while it is our turn to send, a received escape symbol is as unexpected as any other symbol)
     m_escape = ESC;
     return result;
   }
